@@ -303,6 +303,19 @@ func (c *Ctx) ruleFactoryComplete(rule, factoryKey string, ri int, ifaceName str
 // ruleTypeSwitchCovers: a type switch in fn over values of interface ifaceT covers the universe
 // (or ends in a default that does not drop the value).
 func (c *Ctx) typeSwitchCases(fn *ssa.Function, match func(tagType types.Type) bool) []map[*types.Named]bool {
+	sets, _, _ := c.typeSwitchCasesT(fn, match)
+	return sets
+}
+
+// typeSwitchCasesT also returns, per switch, the static type of the switched expression and its position.
+func (c *Ctx) typeSwitchCasesT(fn *ssa.Function, match func(tagType types.Type) bool) ([]map[*types.Named]bool, []types.Type, []token.Pos) {
+	var tags []types.Type
+	var poss []token.Pos
+	sets := c.typeSwitchCases0(fn, match, &tags, &poss)
+	return sets, tags, poss
+}
+
+func (c *Ctx) typeSwitchCases0(fn *ssa.Function, match func(tagType types.Type) bool, tags *[]types.Type, poss *[]token.Pos) []map[*types.Named]bool {
 	info := c.infoFor(fn)
 	body := funcBody(fn)
 	if info == nil || body == nil {
@@ -338,6 +351,10 @@ func (c *Ctx) typeSwitchCases(fn *ssa.Function, match func(tagType types.Type) b
 			}
 		}
 		out = append(out, set)
+		if tags != nil {
+			*tags = append(*tags, info.TypeOf(x))
+			*poss = append(*poss, ts.Pos())
+		}
 		return true
 	})
 	return out
@@ -416,4 +433,42 @@ func mentionsConst(n ast.Node, info *types.Info, name string) bool {
 		return !found
 	})
 	return found
+}
+
+// decodeInterfaceUniverse: for every interface type of the package, the concrete types that
+// decode-side code converts to it (MakeInterface in functions reachable from the parse entry
+// points). This is the exact set of types a decoded value of that interface type can have.
+func (c *Ctx) decodeInterfaceUniverse(short string) map[*types.Named]map[*types.Named]bool {
+	out := map[*types.Named]map[*types.Named]bool{}
+	var roots []*ssa.Function
+	for _, k := range decodeEntryPoints {
+		if strings.Contains(k, short+".") {
+			if fn := c.P.Func(k); fn != nil {
+				roots = append(roots, fn)
+			}
+		}
+	}
+	for fn := range c.reachableFrom(roots) {
+		for _, b := range fn.Blocks {
+			for _, in := range b.Instrs {
+				mi, ok := in.(*ssa.MakeInterface)
+				if !ok {
+					continue
+				}
+				it, ok := mi.Type().(*types.Named)
+				if !ok {
+					continue
+				}
+				n := ir.NamedOf(mi.X.Type())
+				if n == nil {
+					continue
+				}
+				if out[it] == nil {
+					out[it] = map[*types.Named]bool{}
+				}
+				out[it][n] = true
+			}
+		}
+	}
+	return out
 }
